@@ -25,6 +25,10 @@ structural and decided here:
              tighter than its parent (right grouping), a right operand when it binds looser,
              ``not`` whenever it is an operand, and comparison / membership operators are
              serialised with the same rule.
+  C04-RAW    the lexer hands the text of ``raw`` blocks to the plain content node; its serialiser
+             re-wraps text containing ``{{`` / ``{%`` in a raw block.
+  C04-ORDER  a list field is serialised by one order-preserving traversal (no sorted / reversed /
+             partition into several lists).
 Not decided: that text satisfying these re-parses to an *equal* tree for every template.
 """
 
@@ -178,7 +182,7 @@ MARKUP = re.compile(r"\{%.*?%\}|\{\{.*?\}\}", re.S)
 
 def run(repo: Repo) -> Result:
     res = Result(PID)
-    res.rules = ["C04-COVER", "C04-SKEL", "C04-WORDS", "C04-QUOTE", "C04-PREC"]
+    res.rules = ["C04-RAW", "C04-ORDER", "C04-COVER", "C04-SKEL", "C04-WORDS", "C04-QUOTE", "C04-PREC"]
     res.explanation = "necessary conditions of round-trip serialisation: field coverage of __str__, markup skeleton shape, reader/writer keyword agreement, quoting without escapes, bracket rule using the parser's binding powers"
     res.assumptions = ["equality of the re-parsed tree for every template is not decided (value level)"]
     reg = Registry(repo)
@@ -454,7 +458,81 @@ def run(repo: Repo) -> Result:
         good = {k for k, v in opmap.items() if v == tok}
         if not symbols <= good:
             res.add("C04-WORDS", c.qual, f"symbol:{sorted(symbols)}", f"{cname}.__str__ writes {sorted(symbols)} but the tokenizer maps {sorted(good)} to {tok}", c.file, c.methods["__str__"].line)
-    res.stats.update(serialisers=n_skel, node_classes=len(node_classes), expression_classes=len(expr_classes))
+    # ---- C04-RAW: literal text that contains markup delimiters ---------------------------------
+    # The lexer turns `{% raw %}text{% endraw %}` into a plain content token; the text may contain
+    # `{{` / `{%`.  Written back bare it would be read as markup, so the content node's serialiser
+    # must re-wrap such text in a raw block (reader/writer agreement for the RAW rule).
+    tk = repo.func("liquid.lex._tokenize_template")
+    raw_if = None
+    for n in ast.walk(tk.node):
+        if isinstance(n, ast.If) and isinstance(n.test, ast.Compare) and is_name(n.test.left, "kind") and len(n.test.comparators) == 1 and isinstance(n.test.comparators[0], ast.Constant) and n.test.comparators[0].value == "RAW":
+            raw_if = n
+    if raw_if is None:
+        raise AnchorMissing("liquid.lex._tokenize_template: the `kind == 'RAW'` branch was not found; re-derive C04-RAW")
+    raw_kind = next((text(st.value) for st in raw_if.body if isinstance(st, ast.Assign) and is_name(st.targets[0], "kind")), None)
+    res.ob("raw:reader")
+    if raw_kind == "TOKEN_CONTENT":
+        cn = repo.cls("liquid.builtin.content.ContentNode")
+        m = cn.methods.get("__str__")
+        res.ob("raw:writer", 2)
+        if m is None:
+            res.add("C04-RAW", cn.qual, "no-str", "ContentNode has no __str__", cn.file, cn.line)
+        else:
+            wrapped = None
+            for n in walk_no_nested(m.node):
+                if isinstance(n, ast.If) and any(isinstance(st, ast.Return) and st.value is not None and re.fullmatch(r"\{% raw %\}" + HOLE + r"\{% endraw %\}", next(iter(Skel(repo, cn, m)._expr(st.value, {})), "")) for st in n.body):
+                    wrapped = n
+            if wrapped is None:
+                res.add("C04-RAW", cn.qual, "raw-not-rewrapped", "ContentNode.__str__ never writes `{% raw %}<text>{% endraw %}`: the lexer hands it the text of raw blocks (kind RAW -> TOKEN_CONTENT), which may contain `{{` / `{%` and would re-parse as markup", m.file, m.line)
+            else:
+                t = wrapped.test
+                disj = t.values if isinstance(t, ast.BoolOp) and isinstance(t.op, ast.Or) else [t]
+                seen_d = {d.left.value for d in disj if isinstance(d, ast.Compare) and len(d.ops) == 1 and isinstance(d.ops[0], ast.In) and isinstance(d.left, ast.Constant) and text(d.comparators[0]) == "self.text"}
+                missing = {"{{", "{%"} - seen_d
+                if missing or len(seen_d) != len(disj):
+                    res.add("C04-RAW", cn.qual, f"raw-guard:{sorted(missing)}", f"ContentNode.__str__ re-wraps text in a raw block only when `{text(t)[:80]}`; it must do so whenever the text contains `{{{{` or `{{%` (missing: {sorted(missing)})", m.file, wrapped.lineno)
+    elif raw_kind is None:
+        raise AnchorMissing("liquid.lex._tokenize_template: the RAW branch no longer assigns `kind`; re-derive C04-RAW")
+
+    # ---- C04-ORDER: sequences are written in the order they are rendered ---------------------------
+    # A list field that render/evaluate walks in order (case/when blocks, elsif alternatives, filters,
+    # arguments, path segments, child nodes) must be serialised by ONE order-preserving traversal:
+    # no sorted()/reversed()/[::-1] on it and no partition of its elements into several lists.
+    n_order = 0
+    for c in list({q: c for q, (c, _t) in node_classes.items()}.values()) + list(expr_classes):
+        m = c.methods.get("__str__")
+        if m is None:
+            continue
+        for n in walk_no_nested(m.node):
+            its = []
+            if isinstance(n, ast.For):
+                its = [(n.iter, n)]
+            elif isinstance(n, (ast.ListComp, ast.GeneratorExp)):
+                its = [(g.iter, n) for g in n.generators]
+            for it, holder in its:
+                src_ = it
+                wrappers = []
+                while isinstance(src_, ast.Call) and src_.args and isinstance(src_.func, ast.Name):
+                    wrappers.append(src_.func.id)
+                    src_ = src_.args[0]
+                rev_slice = isinstance(src_, ast.Subscript) and isinstance(src_.slice, ast.Slice) and src_.slice.step is not None
+                base = src_.value if isinstance(src_, ast.Subscript) else src_
+                ch = attr_chain(base)
+                if not (ch and ch[0] == "self" and len(ch) == 2):
+                    continue
+                n_order += 1
+                res.ob(f"order:{c.qual}.{ch[1]}")
+                bad = [w for w in wrappers if w in ("sorted", "reversed", "set", "frozenset")]
+                if bad or rev_slice:
+                    res.add("C04-ORDER", c.qual, f"reordered:{ch[1]}", f"{c.name}.__str__ walks self.{ch[1]} through `{text(it)[:50]}`: the elements are written in a different order than they are rendered", m.file, holder.lineno)
+                if isinstance(holder, ast.For):
+                    sinks = {x.func.value.id for x in ast.walk(holder) if isinstance(x, ast.Call) and isinstance(x.func, ast.Attribute) and x.func.attr in ("append", "extend", "insert") and isinstance(x.func.value, ast.Name)}
+                    ins = [x for x in ast.walk(holder) if isinstance(x, ast.Call) and isinstance(x.func, ast.Attribute) and x.func.attr == "insert"]
+                    if len(sinks) > 1 or ins:
+                        res.add("C04-ORDER", c.qual, f"partitioned:{ch[1]}", f"{c.name}.__str__ distributes the elements of self.{ch[1]} over {sorted(sinks)} ({'insert' if ins else 'several lists'}): elements that are rendered interleaved are written regrouped, so the text re-parses to a different order", m.file, holder.lineno)
+    if n_order < 8:
+        raise AnchorMissing(f"C04-ORDER: only {n_order} sequence traversals found in serialisers")
+    res.stats.update(serialisers=n_skel, node_classes=len(node_classes), expression_classes=len(expr_classes), ordered_traversals=n_order)
     return res
 
 
